@@ -1,4 +1,44 @@
-import Kap.Spec.C11
+/-
+C11 — property theorems (every `theorem` in this module is a proof obligation; `bin/check C11` audits each
+one's axioms). Helper lemmas live in Kap/Proofs/C11*.lean.
+
+Statement (properties.jsonl): for every batch (or run of equal-time stream points) of a group, the functions
+emit the value defined by their InfluxQL meaning over exactly that batch's field values, typed as documented,
+stamped with the batch end time (or the selected point's time for selectors when point times are requested),
+named by as() and carrying the group's tags; empty batches emit nothing unless the function is defined on
+empty input.
+
+`run {} cfg ms` is the model of the node as the code is today (Kap/Model/C11.lean, Quirks all false);
+`Spec.spec cfg ms` is the stateless statement of the property (Kap/Spec/C11.lean).
+-/
+import Kap.Proofs.C11Batch
 namespace Kap.Props.C11
-open Kap.C11
+open Kap.C11 Kap.C11.Spec
+
+/-! ### The node-wide creator cache -/
+
+/-- **The cache is transparent**: whatever kinds any group of the node saw before, `getCreateFn` answers
+exactly "is this kind supported" — no creator of an earlier kind survives. -/
+theorem cache_transparent (cfg : Cfg) (n : NodeSt) (kind : Kind) (h : CacheInv cfg n) :
+    (getCreateFn {} cfg n kind).2 = (if supported cfg.fn kind then some kind else none) ∧
+    CacheInv cfg (getCreateFn {} cfg n kind).1 :=
+  ⟨(getCreateFn_current cfg n kind h).1, (getCreateFn_current cfg n kind h).2.1⟩
+
+/-! ### Batch mode, aggregating functions and selectors -/
+
+/-- **One batch, any history**: in every reachable state of the node (any earlier batches of this or other
+groups, any earlier field kinds) a batch makes the node emit exactly the spec of THAT batch: value by
+definition over the batch's values of the kind of its first usable point, documented empty-batch rule, time,
+name and tags. -/
+theorem batch_independent (cfg : Cfg) (hT : cfg.fn.isTransformation = false) (n : NodeSt) (b : Batch)
+    (hc : CacheInv cfg n) :
+    (stepBatch {} cfg n b).2 = specBatch cfg b ∧ CacheInv cfg (stepBatch {} cfg n b).1 :=
+  stepBatch_eq_spec cfg hT n b hc
+
+/-- **Every history of batches** (all groups interleaved, no bound on sizes): the node's output is the
+spec's. -/
+theorem batches_refine_spec (cfg : Cfg) (hT : cfg.fn.isTransformation = false) (ms : List Msg)
+    (hb : allBatches ms) : run {} cfg ms = spec cfg ms :=
+  runFrom_batches cfg hT ms hb {} [] (cacheInv_init cfg)
+
 end Kap.Props.C11
